@@ -847,6 +847,12 @@ class Exec(Sym):
             return self.block(n0, d)
         if n0.get("k") == "Call" and (callee_of(n0) or "").endswith(("String::new", "String::with_capacity")):
             return ("str",)
+        if n0.get("k") == "Call" and n0.get("ty") == "std::string::String" and len(n0.get("args") or ()) == 1 and \
+                (callee_of(n0) or "").endswith(("From<&str>>::from", "String::from", "From<&'a str>>::from")):
+            return ("str", ("s", self.sym(n0["args"][0], d)))      # String::from("..") : a string that starts with that text
+        if n0.get("k") == "MethodCall" and n0.get("ty") == "std::string::String" and n0["name"] in ("to_owned", "to_string") and \
+                strip(n0["recv"]).get("ty") in ("&str", "&'static str"):
+            return ("str", ("s", self.sym(n0["recv"], d)))
         if n0.get("k") == "Match":
             return self.branch_match(n0, d + 1)
         if n0.get("k") == "If":
@@ -1052,6 +1058,10 @@ class Exec(Sym):
     def branch_if(self, n, d):
         c = self.sym(n["cond"], d)
         base = dict(self.store)
+        # `if let PAT = e` (possibly inside a && chain): the names PAT binds are projections of e in the then-branch
+        for cn, _ in walk(n["cond"]):
+            if cn.get("k") == "Let":
+                self.bind_pat_fields(cn["pat"], self.sym(cn["init"], d))
         tv = self.value(n["then"], d)
         st_t = self.store
         self.store = dict(base)
@@ -1269,6 +1279,8 @@ def fold(t, assume, discr=None, helpers=None, evalcalls=None):
                     return ("lit", eq if op == "==" else not eq)
                 if _ground(a) and _ground(b):
                     return ("lit", (a == b) if op == "==" else (a != b))
+                if a[:1] == ("slen",) and b[:1] == ("slen",) and a[1] == b[1]:
+                    return ("lit", (a[2] == b[2]) if op == "==" else (a[2] != b[2]))
             if a[0] == "lit" and b[0] == "lit":
                 x, y = a[1], b[1]
                 try:
@@ -1334,6 +1346,11 @@ def fold(t, assume, discr=None, helpers=None, evalcalls=None):
             if a[0] == "lit" and isinstance(a[1], int):
                 return ("lit", -a[1])
             return ("neg", a)
+        if h == "let" and len(t) >= 3:
+            sc = f(t[2])
+            if sc[0] in ("variant", "lit", "struct", "ctor", "pos"):
+                return ("lit", _pat_matches(t[1], sc))
+            return ("let", t[1], sc) + tuple(t[3:])
         if h == "if":
             c = f(t[1])
             if c == ("lit", True):
@@ -1449,6 +1466,16 @@ def fold(t, assume, discr=None, helpers=None, evalcalls=None):
                 return ("lit", CHAR_FNS[ck](args[0][1]))
             if ck in BOOL_CHAR_FNS and args and args[0][0] == "lit" and isinstance(args[0][1], str):
                 return ("lit", BOOL_CHAR_FNS[ck](args[0][1]))
+            if ck.endswith("String::len") and len(args) == 1 and args[0][:1] == ("str",):
+                # length of a built string: literal part counted, non-literal chunks kept symbolic
+                lit_len, rest_ = 0, []
+                for p_ in args[0][1:]:
+                    x_ = p_[1] if isinstance(p_, tuple) and len(p_) == 2 else None
+                    if x_ is not None and x_[0] == "lit" and isinstance(x_[1], str):
+                        lit_len += len(x_[1])
+                    else:
+                        rest_.append(p_)
+                return ("lit", lit_len) if not rest_ else ("slen", tuple(rest_), lit_len)
             if ck.endswith("::contains") and len(args) == 2 and args[0][0] == "struct" and str(args[0][1]).endswith(("ops::Range", "ops::RangeInclusive")):
                 d_ = dict(args[0][2])
                 lo_, hi_, x_ = sym_int(d_.get("start")), sym_int(d_.get("end")), sym_int(args[1])
